@@ -134,8 +134,34 @@ func (t *gtype) coq() string {
 		return "list (" + t.key.coq() + " * " + t.elem.coq() + ")"
 	case kValue:
 		return "V"
+	case kStruct:
+		// a struct as a value (an element of a slice or map): the tuple of its fields, in field order
+		var fs []string
+		for _, fl := range t.fields {
+			fs = append(fs, paren(fl.typ.coq()))
+		}
+		if len(fs) == 0 {
+			return "unit"
+		}
+		return strings.Join(fs, " * ")
 	}
 	return "UNSUPPORTED"
+}
+
+// storable: a type whose values can be elements of slices and maps: a supported type, or a struct of such fields.
+func (t *gtype) storable() bool {
+	if t.kind == kStruct {
+		if len(t.fields) == 0 {
+			return false
+		}
+		for _, fl := range t.fields {
+			if !fl.typ.supported() {
+				return false
+			}
+		}
+		return true
+	}
+	return t.supported()
 }
 
 func paren(s string) string {
@@ -150,9 +176,9 @@ func (t *gtype) supported() bool {
 	case kBool, kInt, kString, kValue:
 		return true
 	case kSlice:
-		return t.elem.supported()
+		return t.elem.storable()
 	case kMap:
-		return t.key.supported() && t.elem.supported() && (t.key.kind == kInt || t.key.kind == kString)
+		return t.key.supported() && t.elem.storable() && (t.key.kind == kInt || t.key.kind == kString)
 	}
 	return false
 }
@@ -165,6 +191,12 @@ func (t *gtype) usesValue() bool {
 		return t.elem.usesValue()
 	case kMap:
 		return t.elem.usesValue()
+	case kStruct:
+		for _, fl := range t.fields {
+			if fl.typ.kind != kStruct && fl.typ.usesValue() {
+				return true
+			}
+		}
 	}
 	return false
 }
@@ -396,8 +428,8 @@ func (g *gen) resolveType(p *gpkg, f *ast.File, e ast.Expr, depth int) *gtype {
 		}
 	case *ast.StarExpr:
 		t := g.resolveType(p, f, x.X, depth+1)
-		if t.kind == kStruct {
-			return t // a pointer to a struct that is only read
+		if t.kind == kStruct || ((t.kind == kSlice || t.kind == kMap) && t.nname != "") {
+			return t // a pointer to a struct, or to a named slice / map type (a receiver): the pointee
 		}
 		return &gtype{kind: kOther, name: "*" + t.name, valueKind: -1}
 	case *ast.ArrayType:
